@@ -21,6 +21,9 @@ const TOKENS: &[&str] = &[
 
 struct CycleResolver {
     refs: std::collections::BTreeMap<String, Dict>,
+    /// what an id without a record resolves to: 0 nothing, 1 an empty record, 2 a record without
+    /// any ref tag, 3 a record whose ref tags point back at the same id
+    unknown: std::sync::atomic::AtomicUsize,
 }
 impl PathResolver for CycleResolver {
     fn resolve_for(&self, root: &Dict, path: &Path) -> Value {
@@ -30,7 +33,15 @@ impl PathResolver for CycleResolver {
         Value::Null
     }
     fn resolve_ref(&self, r: &Ref) -> Option<Dict> {
-        self.refs.get(&r.value).cloned()
+        if let Some(d) = self.refs.get(&r.value) {
+            return Some(d.clone());
+        }
+        match self.unknown.load(std::sync::atomic::Ordering::Relaxed) {
+            0 => None,
+            1 => Some(Dict::new()),
+            2 => Some(lib_dict(&[("dis", V::str("stub"))])),
+            _ => Some(lib_dict(&[("id", V::Ref(r.value.clone(), None)), ("siteRef", V::Ref(r.value.clone(), None)), ("equipRef", V::Ref(r.value.clone(), None)), ("a", V::Ref(r.value.clone(), None))])),
+        }
     }
 }
 
@@ -50,7 +61,7 @@ struct World {
 fn world() -> &'static World {
     static W: OnceLock<World> = OnceLock::new();
     W.get_or_init(|| {
-        let text = std::fs::read_to_string("/repo/tests/defs/defs.zinc").unwrap_or_else(|e| crate::engine::machinery(&format!("defs.zinc: {e}")));
+        let text = std::fs::read_to_string(format!("{}/tests/defs/defs.zinc", crate::engine::repo_dir())).unwrap_or_else(|e| crate::engine::machinery(&format!("defs.zinc: {e}")));
         let grid: Grid = match libhaystack::encoding::zinc::decode::from_str(&text) {
             Ok(Value::Grid(g)) => g,
             other => crate::engine::machinery(&format!("defs.zinc does not decode to a grid: {:?}", other.map(|_| ()))),
@@ -86,7 +97,7 @@ fn world() -> &'static World {
             lib_dict(&[("a", r("nowhere")), ("siteRef", r("nowhere"))]),
             lib_dict(&[("a", V::str("s")), ("b", V::num(5.0)), ("true", V::Marker), ("not", V::Marker)]),
         ];
-        World { ns, resolver: CycleResolver { refs }, records }
+        World { ns, resolver: CycleResolver { refs, unknown: std::sync::atomic::AtomicUsize::new(0) }, records }
     })
 }
 
@@ -105,7 +116,11 @@ pub fn filter_entries(bytes: &[u8]) -> Result<bool, (String, String)> {
     let w = world();
     guarded(|| {
         for rec in &w.records {
-            let _ = f.eval(&EvalContext::make(rec, w.ns, &w.resolver));
+            for mode in 0..4usize {
+                w.resolver.unknown.store(mode, std::sync::atomic::Ordering::Relaxed);
+                let _ = f.eval(&EvalContext::make(rec, w.ns, &w.resolver));
+            }
+            w.resolver.unknown.store(0, std::sync::atomic::Ordering::Relaxed);
         }
     })
     .map_err(|p| ("eval".to_string(), p))?;
@@ -180,6 +195,9 @@ const MUT_ALPHA: &[u8] = b"ab ()=!<>*-?5\"@^`:T.\n\\\xff";
 struct Tables {
     docs: Vec<Vec<u8>>,
     prefix: Vec<u64>,
+    /// short filters for the all-256-bytes substitution / insertion sweep
+    sub_docs: Vec<Vec<u8>>,
+    sub_prefix: Vec<u64>,
 }
 
 fn tables() -> &'static Tables {
@@ -206,7 +224,12 @@ fn tables() -> &'static Tables {
             let a = MUT_ALPHA.len() as u64;
             prefix.push(prefix.last().unwrap() + (l + 1) + l * a + l + (l + 1) * a);
         }
-        Tables { docs, prefix }
+        let sub_docs: Vec<Vec<u8>> = docs.iter().filter(|d| d.len() <= 22).cloned().collect();
+        let mut sub_prefix = vec![0u64];
+        for d in &sub_docs {
+            sub_prefix.push(sub_prefix.last().unwrap() + (2 * d.len() as u64 + 1) * 256);
+        }
+        Tables { docs, prefix, sub_docs, sub_prefix }
     })
 }
 
@@ -269,6 +292,7 @@ fn jobs(tier: Tier) -> Vec<(&'static str, u64, u64)> {
         ("nest8", nd * NEST_PATTERNS as u64, 64),
         ("nest2", nd * NEST_PATTERNS as u64, 64),
         ("long", long_filters().len() as u64, 1 << 13),
+        ("sub", *tables().sub_prefix.last().unwrap(), 1 << 18),
     ]
 }
 
@@ -288,6 +312,9 @@ fn long_filters() -> &'static Vec<Vec<u8>> {
             v.extend_from_slice(b" and b");
             out.push(v);
             out.push(t);
+        }
+        for (text, city, _) in crate::model::time_ref::transition_texts() {
+            out.push(format!("ts >= {text} {city}").into_bytes());
         }
         for n in (1..=72usize).chain([127, 128, 129, 255, 256, 257, 1000]) {
             let name = "a".repeat(n);
@@ -325,6 +352,25 @@ fn job_input(job: &str, ord: u64) -> Vec<u8> {
             nest_doc((ord as usize) / depths.len(), depths[(ord as usize) % depths.len()])
         }
         "long" => long_filters()[ord as usize].clone(),
+        "sub" => {
+            let t = tables();
+            let mut i = match t.sub_prefix.binary_search(&ord) {
+                Ok(i) => i,
+                Err(i) => i - 1,
+            };
+            while t.sub_prefix[i + 1] <= ord {
+                i += 1;
+            }
+            let k = ord - t.sub_prefix[i];
+            let mut d = t.sub_docs[i].clone();
+            let (pos, byte) = ((k / 256) as usize, (k % 256) as u8);
+            if pos < d.len() {
+                d[pos] = byte;
+            } else {
+                d.insert(pos - t.sub_docs[i].len(), byte);
+            }
+            d
+        }
         other => crate::engine::machinery(&format!("C09: unknown job {other}")),
     }
 }
@@ -394,7 +440,7 @@ pub fn child_params(job: &str) -> (u64, u64, usize) {
 
 pub fn run(tier: Tier) -> i32 {
     let mut run = Run::new("C09", tier, "fault_enumeration");
-    run.rule = "inputs: every sequence of <= 4/5 tokens over a 30-token alphabet (tags, keywords, every operator, literals of several kinds, stray '-' '=' '?') joined with and without spaces; every byte string <= 2/3 over all bytes; every prefix, substitution, deletion and insertion (23-byte alphabet) of ~280 printed filters; long tokens (the 24 token kinds of C03 with bodies of every length 1..72, 100, 127..129, 255..257, 300, 1000 as comparison literals; identifiers, paths, and/or chains and symbols of those lengths; all sequences of <= 3 \\uXXXX escapes incl. every surrogate combination); 8 nesting patterns ('(' , 'not ', 'a and ', 'a->', mixed) at every depth 1..256, 2^k(+1) up to 131072 and 10^5 on 8 MiB and 2 MiB stacks. Every input is parsed; every accepted filter is evaluated on 17 records with a resolver whose refs form 1- and 2-cycles over a namespace built from tests/defs/defs.zinc, printed and re-parsed. Oracle: returns — no panic, abort, stack overflow (exit status) or hang (6 s watchdog). non-trivial = distinct input of >= 2 bytes".into();
+    run.rule = "inputs: every sequence of <= 4/5 tokens over a 30-token alphabet (tags, keywords, every operator, literals of several kinds, stray '-' '=' '?') joined with and without spaces; every byte string <= 2/3 over all bytes; every prefix, substitution, deletion and insertion (23-byte alphabet) of ~280 printed filters; every one of the 256 byte values substituted at and inserted before every position of the printed filters of <= 22 bytes; long tokens (the 24 token kinds of C03 with bodies of every length 1..72, 100, 127..129, 255..257, 300, 1000 as comparison literals; identifiers, paths, and/or chains and symbols of those lengths; all sequences of <= 3 \\uXXXX escapes incl. every surrogate combination); 8 nesting patterns ('(' , 'not ', 'a and ', 'a->', mixed) at every depth 1..256, 2^k(+1) up to 131072 and 10^5 on 8 MiB and 2 MiB stacks. Every input is parsed; every accepted filter is evaluated on 17 records with a resolver whose refs form 1- and 2-cycles and which answers unknown ids in four ways (nothing, an empty record, a record without ref tags, a record pointing back at the same id) over a namespace built from tests/defs/defs.zinc, printed and re-parsed. Oracle: returns — no panic, abort, stack overflow (exit status) or hang (6 s watchdog). non-trivial = distinct input of >= 2 bytes".into();
     run.assume("a case that does not finish within 6 s is a hang; crashes and hangs are confirmed in a fresh single-step child");
     crate::engine::quiet_panics();
     for (name, n, chunk) in jobs(tier) {
